@@ -28,7 +28,7 @@ m = dict(
     version=1,
     setup_cmd="./setup.sh",
     hooks=dict(guard="verif", enable="go build -tags verif (the harness module under /verif/harness replaces the canopy module with /repo)",
-               baseline_off_cmd="cd /repo && go build ./... && go test -mod=mod -vet=off -count=1 -timeout 25m ./...",
+               baseline_off_cmd="for m in . plugin/go plugin/go/tutorial; do (cd /repo/$m && go test -vet=off -count=1 -timeout 25m ./...); done",
                source_commits=HOOK_COMMITS, add_only=True),
     engines=[dict(name="lean4-proof+correspondence", path="check",
                   serves_properties=[c["property_id"] for c in checks],
